@@ -55,6 +55,14 @@ func scenRace(r *Run) {
 		o.World.Cipher, o.World.FecD, o.World.FecP, o.World.UDP, o.World.Batch, o.World.SchedWorkers, nClients, actorsPer, duration, lossPM, dupPM, baseUs, jitUs, teardown)
 	s.L.Logf("config %s", r.Res.Config)
 	w := NewWorld(s, o.World)
+	// The property names the entropy source among what the sessions share: this
+	// mode runs the library's own (the serialised modes replace it by a seeded
+	// stream for reproducibility), both implementations in turn.
+	if t.Chance(cs, 500) {
+		kcp.SetEntropy(kcp.NewEntropyAES())
+	} else {
+		kcp.SetEntropy(kcp.NewEntropyChacha8())
+	}
 	kcp.VerifYield = nil
 	s.Yield = nil
 	s.Invariants = nil
